@@ -18,7 +18,7 @@ import math
 import h5py
 import numpy as np
 
-from .. import core, embed, fld as fldmod
+from .. import core, embed, lat, fld as fldmod
 from ..core import Part
 
 META = dict(
@@ -127,6 +127,7 @@ def build_field(df, f, emb):
     subs = {s["name"]: df.Region(p1=[corner(emb, q, s["tag"]) for q in s["lo"]], p2=[corner(emb, q, s["tag"]) for q in s["hi"]],
                                  dims=dims, units=units) for s in f["subs"]}
     mesh = df.Mesh(region=region, n=tuple(int(v) for v in f["n"]), bc=f["bc"], subregions=subs)
+    mesh = lat.arrive_in_place(df, mesh, emb, sum(int(v) for v in f["n"]) * 5 + len(f["subs"]) + len(f["bc"]))
     dt = {"float": np.float64, "complex": np.complex128, "int": np.int64}[f["kind"]]
     arr = fldmod.unflatten([[val(f["kind"], i) for i in cell] for cell in f["vals"]], f["n"], dtype=dt)
     mask = fldmod.unflatten_mask(list(f["valid"]), f["n"])
